@@ -270,6 +270,16 @@ def value_of(ip, st, element):
 
 
 @native
+def no_tweak(ip, st, tw):
+    """the element declares no tweak: Python's None, or (in a caller's abstract view of the field) JSON null"""
+    if tw is None:
+        return True
+    if isinstance(tw, JVal):
+        return as_value("bool", tm.Eq(V.j_tag(tw.term), tm.Int(V.TAG_NONE)))
+    return False
+
+
+@native
 def element_wf(ip, st, element):
     """what the element constructor checked (or: the value is the root of trust, which has nothing to check)"""
     if isinstance(element, Obj) and element.cls.name == "HSMCertificateRoot":
